@@ -509,17 +509,17 @@ def _serialize_duration(value: Duration) -> str:
     result = "-" if signs.pop() else ""
     result += "P"
     if value.years:
-        result += "{:.0f}Y".format(abs(value.years))
+        result += "{}Y".format(abs(value.years))
     if value.months:
-        result += "{:.0f}M".format(abs(value.months))
+        result += "{}M".format(abs(value.months))
     if value.days:
-        result += "{:.0f}D".format(abs(value.days))
+        result += "{}D".format(abs(value.days))
 
     time = ""
     if value.hours:
-        time += "{:.0f}H".format(abs(value.hours))
+        time += "{}H".format(abs(value.hours))
     if value.minutes:
-        time += "{:.0f}M".format(abs(value.minutes))
+        time += "{}M".format(abs(value.minutes))
     if value.seconds or value.microseconds:
         time += "{:.8g}S".format(decimal.Decimal(abs(value.seconds))
                                  + decimal.Decimal(abs(value.microseconds)) / 1000000)
